@@ -27,7 +27,27 @@ inductive Src where
   | coalesceParam (c : String)    -- coalesce("c", %s)
   | param                         -- %s
   | embed (sql : String)          -- literal text
+  | coalesceEmbed (c : String) (sql : String)   -- coalesce("c", literal text)
   deriving DecidableEq, Repr, Inhabited
+
+/-- how the copy treats initial values (read from the source / probed on every run):
+`aligned`: bound parameters are passed in placeholder order (finding F3 repaired);
+`embedCoalesces`: SQL text returned by a callable initial is wrapped in `coalesce` when its column
+already exists (today it is not: finding F57);
+`flagPerItem`: the embed-or-bind decision is taken anew for every initial value (today it is). -/
+structure CopyCfg where
+  aligned : Bool
+  embedCoalesces : Bool
+  flagPerItem : Bool
+  deriving DecidableEq, Repr, Inhabited
+
+def Init.value : Init → String
+  | .param v => v
+  | .embed s => s
+
+def Init.isEmbed : Init → Bool
+  | .embed _ => true
+  | .param _ => false
 
 def kset {β} (d : List (String × β)) (k : String) (v : β) : List (String × β) :=
   if d.any (fun p => p.1 == k) then d.map (fun p => if p.1 == k then (k, v) else p) else d ++ [(k, v)]
@@ -50,14 +70,32 @@ structure Plan where
   params : List String
   deriving DecidableEq, Repr, Inhabited
 
+/-- the initial values as the loop over `new_initial` sees them: when the embed flag is not
+recomputed per item, it stays set after the first embedded value and later plain values are
+embedded as text too -/
+def effective (cfg : CopyCfg) : Bool → List (String × Init) → List (String × Init)
+  | _, [] => []
+  | seen, (c, i) :: rest =>
+    let i' : Init := if !cfg.flagPerItem && seen then Init.embed i.value else i
+    (c, i') :: effective cfg (seen || i.isEmbed) rest
+
+def survivors (oldCols : List String) (items : List Item) : List String :=
+  oldCols.filter (fun c => !(deletedCols items).contains c)
+
+def baseValues (oldCols : List String) (items : List Item) : List (String × Src) :=
+  (survivors oldCols items).map (fun c => (c, Src.col c))
+
+/-- the `SELECT` expression an initial value produces for its column -/
+def srcFor (cfg : CopyCfg) (existing : Bool) (c : String) : Init → Src
+  | .param _ => if existing then Src.coalesceParam c else Src.param
+  | .embed sql => if existing && cfg.embedCoalesces then Src.coalesceEmbed c sql else Src.embed sql
+
+def fvStep (cfg : CopyCfg) (fv : List (String × Src)) (ci : String × Init) : List (String × Src) :=
+  kset fv ci.1 (srcFor cfg (kget fv ci.1).isSome ci.1 ci.2)
+
 /-- `field_values` after the loop over `new_initial` (placeholders positioned) -/
-def fieldValuesOf (oldCols : List String) (items : List Item) : List (String × Src) :=
-  let del := deletedCols items
-  let base : List (String × Src) := (oldCols.filter (fun c => !del.contains c)).map (fun c => (c, Src.col c))
-  (newInitial items).foldl (fun fv (ci : String × Init) =>
-    match ci.2 with
-    | .embed sql => kset fv ci.1 (Src.embed sql)
-    | .param _ => if (kget fv ci.1).isSome then kset fv ci.1 (Src.coalesceParam ci.1) else kset fv ci.1 Src.param) base
+def fieldValuesOf (cfg : CopyCfg) (oldCols : List String) (items : List Item) : List (String × Src) :=
+  (effective cfg false (newInitial items)).foldl (fvStep cfg) (baseValues oldCols items)
 
 def isPlaceholder : Src → Bool
   | .coalesceParam _ | .param => true
@@ -74,13 +112,13 @@ def alignedParams (ni : List (String × Init)) (fv : List (String × Src)) : Lis
 
 /-- the bound parameters.  `aligned = false` (today's code): in `new_initial` order.
 `aligned = true` (repaired): in the order in which the placeholders occur in `field_values`. -/
-def paramsOf (aligned : Bool) (oldCols : List String) (items : List Item) : List String :=
-  let ni := newInitial items
-  if aligned then alignedParams ni (fieldValuesOf oldCols items)
+def paramsOf (cfg : CopyCfg) (oldCols : List String) (items : List Item) : List String :=
+  let ni := effective cfg false (newInitial items)
+  if cfg.aligned then alignedParams ni (fieldValuesOf cfg oldCols items)
   else ni.filterMap (fun ci => match ci.2 with | .param v => some v | .embed _ => none)
 
-def plan (aligned : Bool) (oldCols : List String) (items : List Item) : Plan :=
-  ⟨fieldValuesOf oldCols items, paramsOf aligned oldCols items⟩
+def plan (cfg : CopyCfg) (oldCols : List String) (items : List Item) : Plan :=
+  ⟨fieldValuesOf cfg oldCols items, paramsOf cfg oldCols items⟩
 
 abbrev Row := List (String × Option String)
 
@@ -94,6 +132,8 @@ def evalRow : List (String × Src) → List String → Row → Row
   | (c, .param) :: rest, ps, r => (c, ps.head?) :: evalRow rest ps.tail r
   | (c, .coalesceParam o) :: rest, ps, r =>
     (c, match rowGet r o with | some v => some v | none => ps.head?) :: evalRow rest ps.tail r
+  | (c, .coalesceEmbed o s) :: rest, ps, r =>
+    (c, match rowGet r o with | some v => some v | none => some s) :: evalRow rest ps r
 
 /-- the whole copy: every row of the old table becomes one row of the new table -/
 def copyRows (p : Plan) (rows : List Row) : List Row := rows.map (evalRow p.fieldValues p.params)
@@ -107,8 +147,23 @@ def intended (ni : List (String × Init)) (c : String) (src : Src) (r : Row) : O
   | .coalesceParam o => match rowGet r o with
     | some v => some v
     | none => match kget ni c with | some (.param v) => some v | _ => none
+  | .coalesceEmbed o s => match rowGet r o with
+    | some v => some v
+    | none => some s
 
 def intendedRow (ni : List (String × Init)) (fv : List (String × Src)) (r : Row) : Row :=
   fv.map (fun cs => (cs.1, intended ni cs.1 cs.2 r))
+
+/-- **the property, per column of the rebuilt table**, stated from the inputs alone (no reference to how
+the statement is put together): a surviving column keeps every non-NULL value and has its NULLs
+replaced by the initial value declared for it (if any); a new column holds its declared initial
+value in every row. -/
+def specValue (oldCols : List String) (items : List Item) (r : Row) (c : String) : Option String :=
+  let declared : Option String := (kget (newInitial items) c).map Init.value
+  if (survivors oldCols items).contains c then
+    match rowGet r c with
+    | some v => some v
+    | none => declared
+  else declared
 
 end DEvo.Sql
